@@ -70,7 +70,8 @@ Inductive action : Type :=
 | AFlip (c : nat)                         (* the handler switches a condition *)
 | ARaise                                  (* the handler raises *)
 | AFeed (first : bool) (its : list item)  (* key_processor.feed_multiple(its, first) *)
-| AExit.                                  (* event.app.exit(): is_done becomes true; raises when already set *)
+| AExit                                   (* event.app.exit(): is_done becomes true; raises when already set *)
+| AProcess.                               (* the handler calls event.key_processor.process_keys() itself (re-entry) *)
 
 Record binding : Type := mkbinding {
   bkeys : list Z;       (* Binding.keys; may contain ANY *)
@@ -175,6 +176,14 @@ Record hres : Type := mkhres {
   he : env; hq : list item; hdone : bool; hevs : list event; hraised : bool
 }.
 
+(* ---- cursor position reports (keys) *)
+Definition CPR : Z := 6.
+Definition is_cpr (it : item) : bool := match it with IKey k => k =? CPR | IFlush => false end.
+
+(* not_empty() of process_keys: is there an item it would take?  (is_done: only cursor position reports) *)
+Definition has_next (q : list item) (d : bool) : bool :=
+  if d then existsb is_cpr q else match q with [] => false | _ => true end.
+
 Fixpoint run_actions (acts : list action) (e : env) (q : list item) (d : bool) : hres :=
   match acts with
   | [] => mkhres e q d [] false
@@ -185,6 +194,14 @@ Fixpoint run_actions (acts : list action) (e : env) (q : list item) (d : bool) :
       mkhres (he x) (hq x) (hdone x) (EFed first its :: hevs x) (hraised x)
   | AExit :: r => if d then mkhres e q d [] true     (* "Return value already set" *)
                   else run_actions r e q true
+  | AProcess :: r =>
+      (* re-entrant process_keys(): with nothing to take it returns at once.  Otherwise it takes an item and
+         `self._process_coroutine.send(key_press)` raises ValueError("generator already executing") - the
+         generator is the one that is running this handler; the inner `except` does reset() + empty_queue()
+         and the exception leaves the handler.  The taken item is discarded with the rest of the queue.
+         (If the item taken were a cursor position report the inner call would deliver it without the
+         generator: cases with both re-entry and reports are rejected by the decoder, see [run_keyproc].) *)
+      if has_next q d then mkhres e q d [] true else run_actions r e q d
   end.
 
 Inductive lres : Type :=
@@ -277,8 +294,6 @@ Fixpoint upd_prev (pv : option (nat * list Z)) (evs : list event) : option (nat 
   end.
 
 (* ---- cursor position reports *)
-Definition CPR : Z := 6.
-Definition is_cpr (it : item) : bool := match it with IKey k => k =? CPR | IFlush => false end.
 Definition cpr_keys (ks : list Z) : bool := match ks with [k] => k =? CPR | _ => false end.
 
 (*  for binding in reversed(self._bindings.get_bindings_for_keys((Keys.CPRResponse,))):
@@ -379,6 +394,7 @@ Definition dec_action (s : sx) : option action :=
       | _, _ => None
       end
   | L [A 3] => Some AExit
+  | L [A 4] => Some AProcess
   | _ => None
   end.
 
@@ -416,11 +432,17 @@ Definition enc_env (e : env) : sx := L (map sx_bool e).
 
 (* an op of the driver: feed items and run process_keys(); a condition changing
    outside any handler; the application being finished from outside a handler *)
-Inductive op : Type := OpFeed (its : list item) | OpFlip (c : nat) | OpExit.
+Inductive op : Type := OpFeed (its : list item) | OpFlip (c : nat) | OpExit | OpSigint.
+
+(* KeyProcessor.send_sigint: self.feed(KeyPress(key=Keys.SIGINT), first=True); self.process_keys() *)
+Definition SIGINT : Z := 7.
+Definition send_sigint (fuel : nat) (bs : list ib) (s : st) :=
+  process_keys fuel bs (mkst (buf s) (IKey SIGINT :: queue s) (cenv s) (sdone s) (sprev s)).
 
 Definition dec_op (s : sx) : option op :=
   match s with
   | L [A z] => if z =? -1000 then Some OpExit
+               else if z =? -1001 then Some OpSigint
                else if z <=? -2 then Some (OpFlip (Z.to_nat (-2 - z)))
                else match dec_item (A z) with Some it => Some (OpFeed [it]) | None => None end
   | L l => match map_opt dec_item l with Some its => Some (OpFeed its) | None => None end
@@ -447,7 +469,19 @@ Fixpoint run_ops (fuel : nat) (bs : list ib) (s : st) (ops : list op) : list sx 
       let '(s', evs, pop, stt) := feed_process fuel bs s its in
       enc_state stt evs pop s'
       :: match stt with SFuel => [] | _ => run_ops fuel bs s' r end
+  | OpSigint :: r =>
+      let '(s', evs, pop, stt) := send_sigint fuel bs s in
+      enc_state stt evs pop s'
+      :: match stt with SFuel => [] | _ => run_ops fuel bs s' r end
   end.
+
+(* scope guard: re-entry (AProcess) together with cursor position reports is outside the model *)
+Definition act_process (a : action) : bool := match a with AProcess => true | _ => false end.
+Definition act_cpr (a : action) : bool := match a with AFeed _ its => existsb is_cpr its | _ => false end.
+Definition op_cpr (o : op) : bool := match o with OpFeed its => existsb is_cpr its | _ => false end.
+Definition in_scope (bs : list binding) (ops : list op) : bool :=
+  negb (existsb (fun b => existsb act_process (bacts b)) bs) ||
+  negb (existsb (fun b => existsb (fun k => k =? CPR) (bkeys b) || existsb act_cpr (bacts b)) bs || existsb op_cpr ops).
 
 (* case = (env bindings ops fuel) *)
 Definition run_keyproc (c : list sx) : sx :=
@@ -455,7 +489,7 @@ Definition run_keyproc (c : list sx) : sx :=
   | [L e; L bs; L ops; A fuel] =>
       match map_opt as_bool e, map_opt dec_binding bs, map_opt dec_op ops with
       | Some e', Some bs', Some ops' =>
-          if (0 <=? fuel) && (fuel <=? 100000)
+          if (0 <=? fuel) && (fuel <=? 100000) && in_scope bs' ops'
           then L (run_ops (Z.to_nat fuel) (index_from 0 bs') (mkst [] [] e' false None) ops')
           else bad_case
       | _, _, _ => bad_case
